@@ -136,7 +136,7 @@ CLAIMS = {
         text='PARTIAL. Decides dispatch-table agreement for the 42 table-shaped of 81 NumPy registrations: the chain numpy.f -> function-level implementation -> evaluable wrapper/constructor -> emitted NumPy expression has, '
              'as a normal form over the operands (separately for complex operands where the wrapper branches on dtype), the meaning NumPy documents for f; min_dtype/force_dtype realise NumPy\'s result kind class; comparisons '
              'reject complex, logical operations decline non-booleans; the NEP-13/18 hooks consult the table; operators come from NumPy\'s mixin. A wrong table entry is wrong at every point of every sample; broadcasting, '
-             'indexing, reshape, einsum, linear algebra and lowering with point axes (the composite implementations) are NOT decided. Also decided: linear-algebra wrappers announce an inexact kind; the dispatch layer never writes into caller-owned arrays; slice bounds are normalised with Python semantics in both layers; dot, matmul and vdot compare the operand shapes before their broadcasting product; every _Transpose is constructed from normalised, permutation-checked axes; shape preconditions that a wrapped evaluable node only asserts (det, inv, eig, eigh, searchsorted) are tested by the wrapping implementation; interp compares the lengths of xp and fp; the subscript loop is checked for joint treatment of index arrays (known finding F20: it applies them one by one); element kinds that a wrapped node only asserts (choose selector, index arrays, det/inv operands) are tested first; NumPy\'s boolean special cases (absolute, contractions, mask subscripts) are honoured. dot, matmul and vdot contract the axis carrying the contracted length of both operands and return NumPy\'s shape for 20 operand-dimension cases (labelled-shape interpretation); build-time divisions by axis lengths exclude zero first.',
+             'indexing, reshape, einsum, linear algebra and lowering with point axes (the composite implementations) are NOT decided. Also decided: linear-algebra wrappers announce an inexact kind; the dispatch layer never writes into caller-owned arrays; slice bounds are normalised with Python semantics in both layers; dot, matmul and vdot compare the operand shapes before their broadcasting product; every _Transpose is constructed from normalised, permutation-checked axes; shape preconditions that a wrapped evaluable node only asserts (det, inv, eig, eigh, searchsorted) are tested by the wrapping implementation; interp compares the lengths of xp and fp; the subscript loop is checked for joint treatment of index arrays (known finding F20: it applies them one by one); element kinds that a wrapped node only asserts (choose selector, index arrays, det/inv operands) are tested first; NumPy\'s boolean special cases (absolute, contractions, mask subscripts) are honoured. dot, matmul and vdot contract the axis carrying the contracted length of both operands and return NumPy\'s shape for 20 operand-dimension cases (labelled-shape interpretation); transpose, swapaxes, sum, prod, any, all, trace, diagonal and stack deliver NumPy\'s result shape for the 24 oracle calls, and _Transpose.to_end/from_end keep their contract for every axis list of up to four axes (bounded interpretation); build-time divisions by axis lengths exclude zero first.',
         note='Trusts: CPython ast; oracles/numpy_api.json (documented NumPy semantics and result kinds); the normal-form algebra (one-sided: unforeseen correct spellings would be reported).',
         design='DESIGN.md section 2, C07'),
     'C09': dict(
